@@ -366,6 +366,27 @@ def l3_shape(ctx, RL):
                 ctx.report(R, h, h['body'], short_fn(h['id'])[-30:], 'does not call Repeat/BlockRepeat exactly once')
                 continue
             a0 = rh.r(calls[0]['args'][0])
+            if calls[0].get('name') == 'BlockRepeat' and len(calls[0].get('args', [])) > 1:
+                # the end address comes from the instruction's address operand(s); the only machine state that may enter
+                # is the program counter (the upper bits of a 16-bit address operand are those of the current pc)
+                from ..astq import direct_reads
+                from ..norm import Renderer as _R
+                e1 = calls[0]['args'][1]
+                rr_ = _R(h)
+                # resolve locals to what they were computed from
+                state = set()
+                def _fields(e, depth=0):
+                    for p_, n_ in direct_reads(e):
+                        if p_[0] == RS:
+                            state.add(p_[1])
+                    for n_ in walk(e):
+                        if n_.get('k') == 'ref' and n_.get('dk') == 'local' and n_.get('name') in rr_.locals and depth < 4:
+                            _fields(rr_.locals[n_['name']], depth + 1)
+                _fields(e1)
+                extra = sorted(state - {'pc'})
+                if extra:
+                    ctx.report(R, h, calls[0], short_fn(h['id'])[-30:] + ' end address',
+                               'the loop end address depends on register state other than pc: %s' % extra)
             ok = a0 in ('(call Imm<8>::Unsigned16 on $0 )', '(call Teakra::Interpreter::RegToBus16 on this (call EnumOperand<RegName, RegName::r0, RegName::r1, RegName::r2, RegName::r3, RegName::r4, RegName::r5, RegName::r7, RegName::y0, RegName::st0, RegName::st1, RegName::st2, RegName::p, RegName::pc, RegName::sp, RegName::cfgi, RegName::cfgj, RegName::b0h, RegName::b1h, RegName::b0l, RegName::b1l, RegName::ext0, RegName::ext1, RegName::ext2, RegName::ext3, RegName::a0, RegName::a1, RegName::a0l, RegName::a1l, RegName::a0h, RegName::a1h, RegName::lc, RegName::sv>::GetName on $0 ) 0)',
                         '([] %sr) 6)' % REGS) or a0.startswith('(call Teakra::Interpreter::RegToBus16 on this (call EnumOperand<RegName') and a0.endswith('::GetName on $0 ) 0)')
             if not ok:
